@@ -322,6 +322,17 @@ func (g *Gen) Step() {
 		if g.R.Intn(12) == 0 {
 			args.PID = "ghost@nowhere.com"
 		}
+		if g.R.Intn(10) == 0 {
+			// any identifier storage knows, including the ones the library builds for OAuth2 users
+			var pids []string
+			for pid := range m.W.Store.Users {
+				pids = append(pids, pid)
+			}
+			sortStrings(pids)
+			if len(pids) > 0 {
+				args.PID = pids[g.R.Intn(len(pids))]
+			}
+		}
 		if kind == "login" {
 			args.PW = g.pwFor(a)
 		} else {
